@@ -41,6 +41,10 @@ type ConnLog struct {
 	Seq    int
 	Host   string // abstract host name
 	Plain  bool   // first byte was not a TLS handshake record
+	// what the TLS layer revealed about the client: a resumed session (the client presented a ticket
+	// or session id from an earlier connection) or a client certificate identify it across connections
+	Resumed    bool
+	ClientCert bool
 	Raw    []byte // everything the client sent (after the handshake)
 	Target string
 	Start  time.Time
@@ -101,6 +105,7 @@ func newSim() *Sim {
 	for i := 1; i < 250; i++ {
 		leaf.IPAddresses = append(leaf.IPAddresses, net.IPv4(127, 0, 0, byte(i)))
 	}
+	leaf.IPAddresses = append(leaf.IPAddresses, net.IPv6loopback)
 	leafDER, err := x509.CreateCertificate(rand.Reader, leaf, caCert, &leafKey.PublicKey, caKey)
 	if err != nil {
 		panic(err)
@@ -114,7 +119,9 @@ func newSim() *Sim {
 	os.Setenv("SSL_CERT_FILE", f.Name())
 	os.Setenv("SSL_CERT_DIR", "/nonexistent")
 	return &Sim{
-		cfg: &tls.Config{Certificates: []tls.Certificate{{Certificate: [][]byte{leafDER}, PrivateKey: leafKey}}},
+		/* session tickets are issued (the default) and a client certificate is asked for, so that a client
+		   willing to present either is seen doing it */
+		cfg: &tls.Config{Certificates: []tls.Certificate{{Certificate: [][]byte{leafDER}, PrivateKey: leafKey}}, ClientAuth: tls.RequestClientCert},
 		hosts: map[string]*Host{}, byAddr: map[string]*Host{}, nextIP: 2,
 	}
 }
@@ -174,6 +181,26 @@ func (s *Sim) HostLike(name string, like string) *Host {
 	s.byAddr[h.Addr] = h
 	go h.serve()
 	return h
+}
+
+// HostAt returns a host listening on exactly this address (e.g. the default https port, which needs
+// the right to bind it); the error is returned, not fatal.
+func (s *Sim) HostAt(name string, addr string) (*Host, error) {
+	s.mu.Lock()
+	defer s.mu.Unlock()
+	if h, ok := s.hosts[name]; ok {
+		return h, nil
+	}
+	ln, err := net.Listen("tcp", addr)
+	if err != nil {
+		return nil, err
+	}
+	h := &Host{Name: name, Addr: ln.Addr().String(), sim: s, ln: ln, routes: map[string]*Route{}}
+	h.Fallback = &Route{Raw: []byte("HTTP/1.0 404 Not Found\r\nContent-Type: text/html\r\n\r\n<h1>not found</h1>")}
+	s.hosts[name] = h
+	s.byAddr[h.Addr] = h
+	go h.serve()
+	return h, nil
 }
 
 // Reset forgets all routes and the connection log but keeps hosts (and their ports).
@@ -334,6 +361,10 @@ func (h *Host) handle(raw net.Conn) {
 		return
 	}
 	raw.SetReadDeadline(time.Time{})
+	state := tconn.ConnectionState()
+	s.mu.Lock()
+	log.Resumed, log.ClientCert = state.DidResume, len(state.PeerCertificates) > 0
+	s.mu.Unlock()
 
 	/* read the request head */
 	head := []byte{}
